@@ -170,6 +170,37 @@ def snapshot(root, with_lock=True):
     return walk(root)
 
 
+def meta_snapshot(root):
+    """dimension names, batch size and device of every tensordict of the tree (private storage only).  Metadata may be
+    assigned under lock; a *refused* call, however, must leave it as it was (e.g. `locked[key] = named_td` used to make the
+    locked tensordict adopt the names of the value before the write was refused)."""
+    from tensordict import LazyStackedTensorDict, TensorDict
+    out = []
+
+    def walk(n, path, depth=0):
+        if depth > 8:
+            return
+        d = getattr(n, "__dict__", {})
+        if isinstance(n, LazyStackedTensorDict):
+            out.append((path, "lazy", n._td_dim_name, tuple(n._batch_size) if getattr(n, "_batch_size", None) is not None else None))
+            for k, m in enumerate(n.tensordicts):
+                walk(m, f"{path}/{k}", depth + 1)
+        elif isinstance(n, TensorDict):
+            names = n._td_dim_names
+            out.append((path, "td", tuple(names) if names is not None else None, tuple(n._batch_size), str(n._device)))
+            for k, v in n._tensordict.items():
+                if _is_coll(v):
+                    walk(v, f"{path}/{k}", depth + 1)
+        elif "_param_td" in d:
+            walk(d["_param_td"], path + "/params", depth + 1)
+        elif "_source" in d:
+            walk(d["_source"], path + "/source", depth + 1)
+        elif "_tensordict" in d:
+            walk(d["_tensordict"], path + "/td", depth + 1)
+    walk(root, "")
+    return tuple(out)
+
+
 def diff_paths(a, b, path="") -> list[str]:
     """human-readable first differences between two snapshots"""
     if a == b:
@@ -315,6 +346,9 @@ def hand_calls(kind: str, subject):
     calls = [
         ("set", ("zz", one()), {}), ("set", (existing, one()), {}), ("set", (("zn", "zz"), one()), {}),
         ("__setitem__", ("zz", one()), {}), ("__setitem__", (existing, one()), {}),
+        # a value that carries dimension names: the container adopts them while validating the value, i.e. before the lock is tested
+        ("set", ("zz", "<named_td>"), {}), ("__setitem__", ("zz", "<named_td>"), {}), ("update", ({"zz": "<named_td>"},), {}),
+        ("setdefault", ("zz", "<named_td>"), {}),
         ("setdefault", ("zz", one()), {}),
         ("update", ({"zz": one()},), {}), ("update", ({existing: one()},), {}),
         ("update", ({"zz": one()},), {"inplace": True}),
@@ -348,6 +382,7 @@ def hand_calls(kind: str, subject):
     calls = [(n, a, ({**k, "__must_ok__": True} if (n in ("set", "update") and k.get("inplace") and (a and (a[0] == existing or (isinstance(a[0], dict) and existing in a[0])))) else k)) for n, a, k in calls]
     if nested_existing:
         calls += [("set", (nested_existing[:-1] + ("zz",), torch.ones(*bs, 2) if kind != "tc" else one()), {}),
+                  ("set", (nested_existing[:-1] + ("zn",), "<named_td>"), {}),
                   ("del_", (nested_existing,), {}), ("exclude", (nested_existing,), {"inplace": True}),
                   ("pop", (nested_existing,), {}),
                   ("rename_key_", (nested_existing, nested_existing[:-1] + ("zz",)), {})]
@@ -398,6 +433,12 @@ def public_callables(cls):
     return out
 
 
+def _named_td(subject):
+    from tensordict import TensorDict
+    bs = tuple(subject.batch_size)
+    return TensorDict({"x": torch.ones(*bs) if bs else torch.ones(())}, batch_size=list(bs), names=[f"dim{k}" for k in range(len(bs))] or None)
+
+
 def invoke(subject, name, args, kwargs, kind, limit=3.0):
     """-> outcome string: ok | lock | key | type | value | runtime | other | timeout | index"""
     try:
@@ -409,6 +450,10 @@ def invoke(subject, name, args, kwargs, kind, limit=3.0):
     for i, x in enumerate(a):
         if isinstance(x, str) and x == "<state_dict>":
             a[i] = make(kind, False)[0].state_dict()
+        if isinstance(x, str) and x == "<named_td>":
+            a[i] = _named_td(subject)
+        if isinstance(x, dict) and any(isinstance(v, str) and v == "<named_td>" for v in x.values()):
+            a[i] = {k: (_named_td(subject) if isinstance(v, str) and v == "<named_td>" else v) for k, v in x.items()}
         if isinstance(x, str) and x == "<lazy_fewer>":
             from tensordict import LazyStackedTensorDict
             a[i] = LazyStackedTensorDict(_nested(), stack_dim=0)
